@@ -55,3 +55,13 @@ package cache
 //@ func (h Header) WriteTo(w io.Writer) (n int64, err error)
 //@   prop C13
 //@   requires !isnil(w)
+
+// Creating an entry reserves the header with zero bytes only: until Close has written the
+// real header no digest in the file can verify, whatever prefix of the body has reached the
+// disk.  ghostint("fwcount"/"fwlen"/"fwzero") are maintained by (*os.File).Write.
+//@ func CreateLevel(path string, h hash.Hash, rsum, dsum []byte, level int) (file *File, err error)
+//@   prop C13
+//@   requires !isnil(h) && ghostint("fwcount") == 0
+//@   ensures placeholder: ghostint("fwcount") <= 1 && (ghostint("fwcount") == 1 ==> ghostint("fwzero") == 1 && ghostint("fwlen") == 3*ghostint("hsize"))
+//@   ensures reserved: isnil(err) ==> ghostint("fwcount") == 1
+//@   callpre WriteTo(w): false
